@@ -33,7 +33,7 @@ theorem mutex (h : Reach c n s) (t u : Tid) (ht : isOwner (s.loc t).pc = true) (
   rw [h1] at h2
   exact ⟨Option.some.inj h2, h1⟩
 
-example : ∃ s, Reach ⟨fun _ => .writer true, fun t x => x ++ [t]⟩ 2 s ∧ isOwner (s.loc 0).pc = true :=
+example : ∃ s, Reach { role := fun _ => .writer true, body := fun t x => x ++ [t] } 2 s ∧ isOwner (s.loc 0).pc = true :=
   ⟨_, .step 0 (.step 0 (.step 0 (.step 0 (.step 0 .init (by decide) rfl) (by decide) rfl) (by decide) rfl) (by decide) rfl)
     (by decide) rfl, rfl⟩
 
@@ -242,13 +242,20 @@ theorem serial_equivalence (h : Reach c n s) :
   rw [hi.ac, hi.nodes]
   simp [curCommitter, hw]
 
-/-- the snapshot handed to an admitted writer is the current zone (no lost update): between the return of `writer()` and
-the body, and the version id it was given is the next one. -/
+/-- the snapshot handed to an admitted writer is the current zone (no lost update), or the empty version for
+`writer(replacement=True)`; and the version id it was given is the next one. -/
 theorem snapshot_is_current (h : Reach c n s) (t : Tid) (ht : snapAPc (s.loc t).pc = true) :
-    (s.loc t).snap = s.nodes ∧ (s.loc t).vid = s.versions.length + 1 := by
+    (s.loc t).snap = (if c.repl t then [] else s.nodes) ∧ (s.loc t).vid = s.versions.length + 1 := by
   have hi := (reach_inv h).ser
   refine ⟨hi.snapA t ht, hi.vid t ?_⟩
   revert ht; cases (s.loc t).pc <;> simp
+
+/-- the `replacement` option in the serial reading: committing transaction `t` makes the zone `body t zone`, or
+`body t []` when `t` was opened with `writer(replacement=True)`: whatever earlier transactions wrote is discarded, and
+nothing of a concurrent or later transaction is. -/
+theorem serial_step (c : Cfg) (ts : List Tid) (t : Tid) :
+    applyTxns c (ts ++ [t]) = c.body t (if c.repl t then [] else applyTxns c ts) :=
+  applyTxns_snoc c ts t
 
 /-- `readers_atomic`: "readers never observe a partially applied transaction": the version a reader holds is an element
 of `_versions`, and every element of `_versions` is the serial application of a prefix of the admitted committing
@@ -331,7 +338,7 @@ theorem readers_wait_free (h : Reach c n s) (r : Tid) (hrole : c.role r = .reade
 
 Writer 0 is admitted, writer 1 queues, writer 0 commits and wakes 1 (token out, event set), and writer 2 arrives
 *between the wake-up and the woken thread re-taking the lock*: it must queue behind the token. -/
-def demoCfg : Cfg := ⟨fun _ => .writer true, fun t x => x ++ [t]⟩
+def demoCfg : Cfg := { role := fun _ => .writer true, body := fun t x => x ++ [t] }
 
 def demoSchedule : List Tid :=
   [0, 0, 0, 0, 0, 0, 0,            -- writer 0: call, event=None, acquire, test, create txn, clear event, release
@@ -360,7 +367,7 @@ example (s' : State) (hs : ReachFrom demoCfg 3 demoState s') : (2 ∈ s'.admitte
   (bounded_bypass demo_reach (k := 0) (e := 1) rfl hs).2.2.1
 
 /-- one writer and one reader: the reader is admitted while the write transaction is open and sees the old version -/
-def demoCfgR : Cfg := ⟨fun t => if t = 0 then .writer true else .reader, fun t x => x ++ [t + 7]⟩
+def demoCfgR : Cfg := { role := fun t => if t = 0 then .writer true else .reader, body := fun t x => x ++ [t + 7] }
 def demoScheduleR : List Tid :=
   [0, 0, 0, 0, 0, 0, 0, 0, 0, 0, 0,    -- writer 0 admitted, version set up, body run
    1, 1, 1, 1, 1, 1,                  -- reader 1: call, acquire, pick, register, release, return
@@ -375,6 +382,17 @@ theorem demoR_reach : Reach demoCfgR 2 demoStateR :=
 -- exists, the writer inside its commit section
 example : readerHasPc (demoStateR.loc 1).pc = true ∧ (demoStateR.loc 1).seen = [] ∧ demoStateR.versions = [(1, []), (2, [7])] ∧
     demoStateR.lock = some 0 ∧ demoCfgR.role 1 = .reader ∧ demoStateR.nodes = [7] := ⟨rfl, rfl, rfl, rfl, rfl, rfl⟩
+
+/-- writer 0 appends and commits; writer 1 is a `writer(replacement=True)` that queues behind it, then commits: the zone is
+what writer 1 wrote alone -/
+def demoCfgRepl : Cfg :=
+  { role := fun _ => .writer true, body := fun t x => x ++ [t + 5], repl := fun t => t == 1 }
+def demoScheduleRepl : List Tid :=
+  [0, 0, 0, 0, 0, 0, 0, 1, 1, 1, 1, 1, 1, 1, 0, 0, 0, 0, 0, 0, 0, 0, 0, 0, 0, 0, 0,
+   1, 1, 1, 1, 1, 1, 1, 1, 1, 1, 1, 1, 1, 1, 1, 1, 1]
+example : ∃ s, run demoCfgRepl init demoScheduleRepl = some s ∧ s.admitted = [0, 1] ∧ s.committed = [0, 1] ∧
+    s.nodes = [6] ∧ s.versions = [(1, []), (2, [5]), (3, [6])] ∧ applyTxns demoCfgRepl [0, 1] = [6] :=
+  ⟨_, rfl, rfl, rfl, rfl, rfl, rfl⟩
 
 /-! ## Non-vacuity of the fairness hypotheses
 
